@@ -1,6 +1,7 @@
 (** Entry.v — one entry point per model function for the correspondence check:
     the harness sends  ["op", arg]  as one line of ASCII JSON, the model answers one line. *)
 From InToto.Model Require Import Base Json Rule Glob Rules Utf8 Match DirDigest Canon EntryVerify.
+From InToto.Model Require EntrySign.
 
 Definition s_ok : str := [111;107]%N.
 Definition jok (j : json) : json := JDict [(s_ok, j)].
@@ -116,6 +117,7 @@ Definition op_fnmatch : str := [102;110;109;97;116;99;104]%N.
 
 Definition run_op (op : str) (arg : json) : json :=
   if eqs op op_verify then verify_op arg
+  else if EntrySign.handles_sign op then EntrySign.run_op_sign_total op arg
   else if eqs op op_canon then canon_op arg
   else if eqs op op_match_products then match_products_op arg
   else if eqs op op_dir_text then dir_text_op arg
